@@ -217,7 +217,7 @@ PROPS["C03"] = dict(
           "/p2p/<id> in the address): rejected, no block request after the head request, no hook, no store write, latest-synced unchanged; "
           "genuine heads sync; and every head the publisher serves validates to its own ID, root and topic. End-to-end cases also ask for another identity than the one named by a /p2p/ component of the address, and for another identity at an address at which the subscriber has synced the real publisher before. Signature re-encodings (ECDSA s negated, a byte appended, the last byte dropped) are tampers of their own, classified per key type. distinct_nontrivial = distinct "
           "(key type, alteration, topic present / mount / id placement) tuples."),
-    floors={"quick": {"e2e_asked_for_other_identity_after_good_sync": 12, "e2e_asked_for_other_identity_than_in_address": 20, "e2e_rejections_expected": 120, "e2e_genuine_syncs": 10, "bytes_decodable_rejected": 2000, "publisher_heads_checked": 150, "e2e_mode_libp2phttp-discovery": 20, "e2e_replays_after_genuine_sync": 5, "setroot_then_head_checks": 200}},
+    floors={"quick": {"head_queries_libp2p-stream": 15, "e2e_asked_for_other_identity_after_good_sync": 12, "e2e_asked_for_other_identity_than_in_address": 20, "e2e_rejections_expected": 120, "e2e_genuine_syncs": 10, "bytes_decodable_rejected": 2000, "publisher_heads_checked": 150, "e2e_mode_libp2phttp-discovery": 20, "e2e_replays_after_genuine_sync": 5, "setroot_then_head_checks": 200}},
     level_text=("Exploration: real signing, encoding, head queries and syncs; every listed alteration kind and every byte of sampled encodings is "
                 "tried for every key type, and the end-to-end effect (no request after the head, no latest-synced change) is observed at a "
                 "logging publisher front."),
@@ -240,7 +240,7 @@ PROPS["C09"] = dict(
           "delivered; receiver-concurrent: 3 clients issuing Direct/UncacheCid around the eviction boundary, history checked with porcupine "
           "against the same model; pubsub: three libp2p hosts on one gossip topic (publisher, relay with resend, receiver). "
           "Every fourth CID of the alphabet shares its digest with its neighbour under another codec and every sixteenth is the CIDv0 form of its neighbour's digest; the pubsub scenario rotates the downstream receiver's allow filter through {only the relay, only the original publisher, none}. distinct_nontrivial = sampled distinct exhaustive sequences + history configurations."),
-    floors={"quick": {"pubsub_republication_of_disallowed_publisher": 1, "pubsub_allow_filter_on_B_only-original-publisher": 1, "evictions": 800, "refresh_on_hit": 2000, "uncache_then_delivered": 100, "rejected_then_delivered": 100, "concurrent_histories": 20, "pubsub_runs_completed": 2, "seqs_with_eviction_and_hit": 100000}},
+    floors={"quick": {"delivered_although_republication_failed": 2, "pubsub_republication_of_disallowed_publisher": 1, "pubsub_allow_filter_on_B_only-original-publisher": 1, "evictions": 800, "refresh_on_hit": 2000, "uncache_then_delivered": 100, "rejected_then_delivered": 100, "concurrent_histories": 20, "pubsub_runs_completed": 2, "seqs_with_eviction_and_hit": 100000}},
     watchdog_s={"quick": 900, "thorough": 7200},
     level_text=("Exploration (the small-capacity LRU part is exhaustive up to the stated length): delivery decisions of the real receiver are "
                 "compared call by call with a reference model of 'allowed and not among the 64 most recently seen, un-removed CIDs'; "
@@ -409,7 +409,7 @@ PROPS["C08"] = dict(
           "syncs fail while other publishers wait for a slot; the number of announce-triggered syncs between sync.enter and sync.exit is bounded "
           "by the maximum as well; the pending announcement is never taken while another sync of that publisher is between enter and exit. A quarter of the schedules use an idle-handler TTL of 0.3-3 ms with requests held at the publisher (the cleaner runs many times during every sync); the mixed runs also run SyncEntries with a scoped hook on the same publishers, whose blocks must all reach that hook. distinct_nontrivial = run configurations x (coalescing seen, spawn-while-running seen); distinct interleaving "
           "signatures are counted separately."),
-    floors={"quick": {"entries_syncs_of_the_same_publishers": 120, "runs_with_idle_handler_ttl_shorter_than_a_sync": 25, "coalesced_announcements": 100, "spawn_while_previous_sync_running": 20, "syncs_observed": 300, "runs_reaching_the_concurrency_limit": 3, "runs_with_last_known_baseline": 10, "explicit_syncs_with_expiring_context": 10, "runs_with_failing_syncs": 15, "failed_announce_syncs": 50}},
+    floors={"quick": {"runs_with_remove_handler_calls": 15, "entries_syncs_of_the_same_publishers": 120, "runs_with_idle_handler_ttl_shorter_than_a_sync": 25, "coalesced_announcements": 100, "spawn_while_previous_sync_running": 20, "syncs_observed": 300, "runs_reaching_the_concurrency_limit": 3, "runs_with_last_known_baseline": 10, "explicit_syncs_with_expiring_context": 10, "runs_with_failing_syncs": 15, "failed_announce_syncs": 50}},
     max_counters=["max_concurrent_announce_syncs", "max_announce_syncs_between_start_and_end"],
     watchdog_s={"quick": 900, "thorough": 7200},
     level_text=("Exploration over schedules: many short seeded runs with injected delays; every run's full event log is checked offline for mutual "
